@@ -6,7 +6,7 @@ for d in sorted(glob.glob(os.path.join(os.path.dirname(__file__), "..", "seeded"
     m = json.load(open(os.path.join(d, "meta.json")))
     name = os.path.basename(d)
     det = m["detected_by"]
-    first = "no" if det.lower().startswith(("missed", "first version")) else "yes"
+    first = "no" if det.lower().startswith(("missed", "first version")) else ("by another check" if det.lower().startswith("not caught") else "yes")
     rows.append("| %s | %s | %s | %s |" % (name, m["needs_to_manifest"].replace("|", "/"), first, det.replace("|", "/")))
 print("| Change | What it does / what it needs to manifest | Caught by the check as it was | Outcome |")
 print("|---|---|---|---|")
